@@ -275,3 +275,30 @@ def batch_vs_alone(case, ctx):
                 if not ok:
                     raise Violation("point %d (factor %r) hysteresis %d: %s = %r in the batch, %r alone (factors %r, base loads %r, %s K_p=%s)" % (
                         j, factors[j], i, c, x, y, factors, base, case["kind"], case["K_p"]), bucket="batch:%s" % c)
+
+
+def decode_bytes(data, tier=None):
+    """Fuzzer bytes -> case: 4 configuration bytes (material, law, K_p, bins/passes), then loads in -15..15."""
+    if len(data) < 7:
+        return None
+    seq = [float((b & 0x1F) - 15) for b in data[4:28]]
+    if len(set(seq)) < 2:
+        return None
+    groups = [("Steel", 600), ("SteelCast", 300), ("Al_wrought", 350), ("Steel", 1400)]
+    group, R_m = groups[data[0] % 4]
+    kind = "SB" if data[1] % 3 == 0 else "EN"
+    K_p = [1.2, 2.0, 3.5, 7.0][data[2] % 4]
+    bins = [50, 100][data[3] % 2]
+    passes = [2, 2, 3][(data[3] // 2) % 3]
+    m = max(abs(x) for x in seq)
+    unit = 2.0 ** math.floor(math.log2([0.5, 1.0, 2.0][(data[3] // 8) % 3] * R_m / m))
+    return {"seq": seq, "unit": unit, "group": group, "R_m": R_m, "kind": kind, "K_p": K_p, "bins": bins, "passes": passes}
+
+
+decode_bytes.seeds = [bytes([0, 1, 2, 3]) + bytes(v + 15 for v in (10, -10, 10, -15, -10, -15, 15, 0, 15, -15)), bytes([2] + [16] * 6)]
+
+
+@subcheck("C05", "reference_fuzz", fuzz=decode_bytes, quick=0, thorough=30000,
+          doc="coverage-guided (atheris/libFuzzer): bytes -> (configuration, load sequence); same oracle as `reference`")
+def reference_fuzz(case, ctx):
+    compare_with_reference(case, ctx)
